@@ -128,6 +128,15 @@ NEEDS = {
  "C15h": ("C15", "LogReader: an orphan Middle / Last fragment only sets dropped_data, not saw_corruption: a manifest record whose TYPE byte became 2 or 3 is skipped silently and the later edits are applied (was hidden by the too coarse signature of the known finding KF-C15-log-header-damage)"),
  "C16h": ("C16", "LogReader: end of file inside a continuation fragment also sets dropped_before_end: VersionSet::recover refuses a manifest whose last record (crossing a 32 KiB block boundary) was torn in its Middle / Last fragment: the database does not open any more"),
  "C17h": ("C17", "the existence check and initialize_as_new_db are done BEFORE lock_file: two opens racing on a path without CURRENT: the loser rewrites MANIFEST-1 / CURRENT over the winner's and only then fails to lock"),
+ # ---- eighth wave (session 5): by AREA, changes that bite through an interaction of two sites or a state built up over several operations
+ "H1": ("C16", "version_set.rs: a shared helper opens manifest writers with reuse_log_files as the append flag: a FRESH manifest appends behind a leftover of the same number (crashed open that tore its manifest write; same number handed out again): the open succeeds, every later open fails"),
+ "H2": ("C02", "= C01c: recover_unrecorded_logs no longer sorts the logs (list_dir is 'already sorted' - lexicographically: wal-10 before wal-8)"),
+ "H3": ("C05", "= C05b: LRUCache::new_id as fetch_add + separate load: two concurrent first opens of tables share a block-cache partition id"),
+ "H4": ("C02", "version_set.rs: the next manifest's number is allocated when the manifest is written, AFTER the file counter was captured for the edit: the persisted counter is one short, a later reopen that writes a new manifest without using a number first picks the live manifest's number and truncates it; a crash during that rewrite loses the database"),
+ "H5": ("C05", "build_group_commit_batch: the 'synchronous writer behind a non-synchronous leader' exclusion merged with the force-compaction one: the excluded writer is recorded as last_writer, popped and told Ok, its batch never written"),
+ "H6": ("C11", "new_iterator's cleanup reads Arc::strong_count BEFORE taking the mutex and skips release_version when it sees other holders: a version installed in the window is never unlinked, its files stay until the next open"),
+ "H7": ("C09", "= C09h neighbourhood: finish_compaction_output_file returns the error before it takes the builder out of the state; cleanup calls abandon() on a closed file: assertion on the worker, close hangs (I/O fault in a compaction output's final part or an input read error)"),
+ "H8": ("C02", "recover_unrecorded_logs: the running maximum of the replayed logs' last sequence became a plain assignment; an EMPTY newest log (crash right after a rotation / during an open that created its log) resets it to the manifest's older value: recovered entries invisible, sequence numbers reused"),
 }
 
 def results():
